@@ -28,26 +28,31 @@ thread_local! {
 
 /// the generator's own mutator dispatch (the first registered mutator that fires wins) on a
 /// caller-supplied entropy source, so that it can be compared with a model call by call.
+#[cfg(feature = "verif-hooks-ext")]
 pub fn dispatch_int(gen: &Generator, value: i32, source: &mut super::GenerationSource) -> i32 {
     gen.mutate_int(value, source)
 }
 
 /// see [`dispatch_int`].
+#[cfg(feature = "verif-hooks-ext")]
 pub fn dispatch_float(gen: &Generator, value: f64, source: &mut super::GenerationSource) -> f64 {
     gen.mutate_float(value, source)
 }
 
 /// see [`dispatch_int`].
+#[cfg(feature = "verif-hooks-ext")]
 pub fn dispatch_string(gen: &Generator, value: String, source: &mut super::GenerationSource) -> String {
     gen.mutate_string(value, source)
 }
 
 /// see [`dispatch_int`].
+#[cfg(feature = "verif-hooks-ext")]
 pub fn dispatch_bytes(gen: &Generator, value: Vec<u8>, source: &mut super::GenerationSource) -> Vec<u8> {
     gen.mutate_bytes(value, source)
 }
 
 /// see [`dispatch_int`].
+#[cfg(feature = "verif-hooks-ext")]
 pub fn dispatch_memo_index(gen: &Generator, index: usize, source: &mut super::GenerationSource) -> usize {
     gen.mutate_memo_index(index, source)
 }
@@ -297,6 +302,7 @@ pub(crate) fn done(gen: &Generator) {
 }
 
 /// build a simulated state by hand: push an object of the kind named by its trace letter.
+#[cfg(feature = "verif-hooks-ext")]
 pub fn push_kind(gen: &mut Generator, kind: char) -> bool {
     match object_of_kind(kind) {
         Some(obj) => {
@@ -310,6 +316,7 @@ pub fn push_kind(gen: &mut Generator, kind: char) -> bool {
 /// like [`push_kind`], but containers and objects get mixed contents (a dict with seven entries whose keys are five
 /// strings, an int and a None; lists, tuples and sets with items of several kinds; an instance with arguments): what the
 /// generator decides must depend on the kinds of the stack slots only, never on what the objects contain.
+#[cfg(feature = "verif-hooks-ext")]
 pub fn push_filled(gen: &mut Generator, kind: char) -> bool {
     use crate::stack::{InstanceObject, StackObjectRef};
     let r = |o: StackObject| StackObjectRef::new(o);
@@ -356,6 +363,7 @@ pub fn push_filled(gen: &mut Generator, kind: char) -> bool {
 }
 
 /// build a simulated state by hand: memo[index] := an object of the given kind.
+#[cfg(feature = "verif-hooks-ext")]
 pub fn memo_kind(gen: &mut Generator, index: usize, kind: char) -> bool {
     match object_of_kind(kind) {
         Some(obj) => {
@@ -368,6 +376,7 @@ pub fn memo_kind(gen: &mut Generator, index: usize, kind: char) -> bool {
     }
 }
 
+#[cfg(feature = "verif-hooks-ext")]
 fn object_of_kind(kind: char) -> Option<StackObject> {
     use crate::stack::{InstanceObject, StackObjectRef};
     let global = || StackObject::Global {
@@ -399,12 +408,14 @@ fn object_of_kind(kind: char) -> Option<StackObject> {
 }
 
 /// the protocol header as `generate_internal` leaves it (PROTO written for protocol >= 2).
+#[cfg(feature = "verif-hooks-ext")]
 pub fn begin(gen: &mut Generator, source: &mut super::GenerationSource) {
     gen.reset();
     gen.emit_proto(source);
 }
 
 /// the candidate opcodes of the current state, in table order.
+#[cfg(feature = "verif-hooks-ext")]
 pub fn valid_opcodes(gen: &Generator) -> Vec<String> {
     gen.get_valid_opcodes()
         .iter()
@@ -412,6 +423,7 @@ pub fn valid_opcodes(gen: &Generator) -> Vec<String> {
         .collect()
 }
 
+#[cfg(feature = "verif-hooks-ext")]
 fn norm(name: &str) -> String {
     name.chars()
         .filter(|c| *c != '_')
@@ -420,6 +432,7 @@ fn norm(name: &str) -> String {
 }
 
 /// emit ONE opcode, named as in the trace or as in pickletools, in the current state: the bytes it appended.
+#[cfg(feature = "verif-hooks-ext")]
 pub fn emit_one(
     gen: &mut Generator,
     opcode: &str,
@@ -439,6 +452,7 @@ pub fn emit_one(
 }
 
 /// the collapse tail and STOP from the current state: the bytes appended.
+#[cfg(feature = "verif-hooks-ext")]
 pub fn finish(gen: &mut Generator) -> Vec<u8> {
     let before = gen.output.len();
     gen.cleanup_for_stop();
